@@ -191,16 +191,30 @@ def rawtwo_case(exe, it, run, stats):
     bodies = {b"u1": gen_body(r.randint(1, 10 ** 6), (nblk - 1) * bs + r.choice([1, bs])),
               b"u2": gen_body(r.randint(1, 10 ** 6), (nblk - 1) * bs + r.choice([1, bs]))}
     order = r.choice(["alternate", "alternate", "u1-first-block-then-u2-all"])
+    # a third of the runs: both uploads go to ONE registered resource and only the Request-Tag
+    # (RFC 9175 3: absent, empty and any two different values are all different) tells them
+    # apart; libcoap reassembles (single-body mode)
+    rtags = None
+    if r.random() < 0.35:
+        single = True
+        rtags = r.choice([[None, b""], [None, b""], [b"", b"\x00"], [b"\x01", b"\x01\x00"],
+                          [None, b"\x00"], [bytes(8), bytes(7)],
+                          r.sample([None, b"", b"\x01", b"\x02", b"\x01\x00", b"\x00"], 2)])
+        r.shuffle(rtags)
     w = world.World(exe, seed=r.getrandbits(30))
     sim = world.Sim(w, latency=1)
     witness = {"kind": "rawtwo", "item": it, "szx": szx, "blocks": nblk, "single_body": single,
-               "order": order, "script": w.script}
+               "order": order, "script": w.script,
+               "request_tags": None if rtags is None else [None if t is None else t.hex()
+                                                           for t in rtags]}
     peer = "10.0.7.9:40000"
     try:
         sim.cmd("fullpayload 1")
         sim.add_node(1, block_mode=3 if single else 1)
         sim.cmd("ep 1 udp %s" % SERVER)
         sim.cmd("res 1 - kind=unknown")
+        if rtags is not None:
+            sim.cmd("res 1 %s store=1" % b"up".hex())
         sim.peers[peer] = lambda *a: None
         seq = []
         if order == "alternate":
@@ -213,9 +227,14 @@ def rawtwo_case(exe, it, run, stats):
         for name, i in seq:
             mid += 1
             v = (i << 4) | ((1 if i < nblk - 1 else 0) << 3) | szx
-            m = cw.msg(3, type=0, mid=mid, token=name[1:], options=[
-                (11, name), (27, v.to_bytes((v.bit_length() + 7) // 8, "big") if v else b"")],
-                payload=bodies[name][i * bs:(i + 1) * bs])
+            opts = [(11, name), (27, v.to_bytes((v.bit_length() + 7) // 8, "big") if v else b"")]
+            if rtags is not None:
+                opts[0] = (11, b"up")
+                tag = rtags[0] if name == b"u1" else rtags[1]
+                if tag is not None:
+                    opts.append((292, tag))
+            m = cw.msg(3, type=0, mid=mid, token=name[1:], options=opts,
+                       payload=bodies[name][i * bs:(i + 1) * bs])
             sim.inject(peer, SERVER, cw.encode(m, "udp"))
             sim.run(until=sim.elapsed() + 10, quiesce=False)
         sim.run(until=sim.elapsed() + 30000, quiesce=False)
@@ -223,6 +242,21 @@ def rawtwo_case(exe, it, run, stats):
         reqs = [e for e in sim.log if e["e"] == "req" and e.get("n") == 1]
         for name, body in bodies.items():
             mine = [e for e in reqs if bytes.fromhex(e.get("upath", "")) == name]
+            if rtags is not None:
+                stats["raw_uploads_by_request_tag"] = stats.get("raw_uploads_by_request_tag", 0) + 1
+                other = bodies[b"u2" if name == b"u1" else b"u1"]
+                calls = [e for e in reqs if bytes.fromhex(e.get("upath", "")) == b"up"]
+                good = [e for e in calls if bytes.fromhex(e.get("phex", "")) == body]
+                alien = [e for e in calls if bytes.fromhex(e.get("phex", "")) not in (body, other)]
+                if len(good) != 1 or alien:
+                    run.violation("lossless-transfer-incomplete/rawtwo/request-tags",
+                                  dict(witness, path="up", upload=name.decode()),
+                                  "two uploads to /up told apart by Request-Tag %r: body %s was "
+                                  "handed over %d times, %d handler calls got a body nobody "
+                                  "sent; calls (length, total) %r" %
+                                  (witness["request_tags"], name.decode(), len(good), len(alien),
+                                   [(e.get("plen"), e.get("ptot")) for e in calls]))
+                continue
             if single:
                 good = [e for e in mine if e.get("plen") == len(body) and
                         bytes.fromhex(e.get("phex", "")) == body]
@@ -939,8 +973,8 @@ def main(tier):
         jobs.append(("rawput", list(range(i, min(nraw, i + 8))), exe))
     for i in range(0, nraw, 8):
         jobs.append(("rawget", list(range(i, min(nraw, i + 8))), exe))
-    for i in range(0, nraw // 4, 8):
-        jobs.append(("rawtwo", list(range(i, min(nraw // 4, i + 8))), exe))
+    for i in range(0, nraw // 2, 8):
+        jobs.append(("rawtwo", list(range(i, min(nraw // 2, i + 8))), exe))
     nab = 24 if tier == "quick" else 600
     for i in range(0, nab, chunk):
         jobs.append(("abandon", list(range(i, min(nab, i + chunk))), exe))
